@@ -34,15 +34,22 @@ func (i inflight) fromX() bool    { return i == inflFromXLate || i == inflFromXE
 func (i inflight) early() bool    { return i == inflFromXEarly || i == inflToXEarly }
 
 type point struct {
-	Client bool // exporting side X is the client
-	A, B   int  // records client->server, server->client before the export
-	Infl   inflight
+	Client  bool // exporting side X is the client
+	A, B    int  // records client->server, server->client before the export
+	Infl    inflight
+	NewAddr bool // the resumed endpoint is bound to a new local address (the peer must follow it)
 }
+
+// resumedNewAddr is where the resumed endpoint lives in the "new address" cases.
+const resumedNewAddr = world.Addr("10.0.0.7:7777")
 
 func (p point) String() string {
 	side := "server"
 	if p.Client {
 		side = "client"
+	}
+	if p.NewAddr {
+		return fmt.Sprintf("%s/a%d.b%d/%s/newaddr", side, p.A, p.B, p.Infl)
 	}
 	return fmt.Sprintf("%s/a%d.b%d/%s", side, p.A, p.B, p.Infl)
 }
@@ -231,10 +238,14 @@ type obs struct {
 	WireErr     string
 	PeerCID     []byte // the CID X must put on its records (peer's local CID)
 	XCID        []byte // the CID the peer puts on records to X
-	Leak        string
-	MarkID      int
-	States      []uint64
-	Trans       []uint64
+	// Migratable: the peer can learn a new address of X. It needs records from X that carry the
+	// peer's own (non-empty) connection ID and a negotiated return-routability check (both judged on
+	// the ORIGINAL connection pair before the export, never on the exported state).
+	Migratable bool
+	Leak       string
+	MarkID     int
+	States     []uint64
+	Trans      []uint64
 }
 
 const (
@@ -430,6 +441,7 @@ func runScenario(t *testing.T, p *world.PKI, cf config, pt point, mut *mutation,
 		o.Orig, st = collect(x.Conn)
 		xs, ps := x.Snapshot(), peer.Snapshot()
 		o.PeerCID, o.XCID = ps.LocalCID, xs.LocalCID
+		o.Migratable = len(ps.LocalCID) > 0 && xs.RRC && ps.RRC
 		if int(xs.LocalEpoch) < len(xs.LocalSeq) {
 			o.OrigSeqNext = xs.LocalSeq[xs.LocalEpoch]
 		}
@@ -451,7 +463,7 @@ func runScenario(t *testing.T, p *world.PKI, cf config, pt point, mut *mutation,
 		collectWire := func() {
 			cidLen := len(o.PeerCID)
 			for _, d := range w.Emitted() {
-				if d.Src != x.Addr || d.ID < pr.FirstID {
+				if (d.Src != x.Addr && d.Src != resumedNewAddr) || d.ID < pr.FirstID {
 					continue
 				}
 				recs, perr := world.ParseDatagram(d.Data, cidLen)
@@ -504,7 +516,11 @@ func runScenario(t *testing.T, p *world.PKI, cf config, pt point, mut *mutation,
 				o.Panic = "unmarshalled-state: " + e
 			}
 		}
-		nx, err := x.ResumeFrom(p, &st2)
+		bindAddr := x.Addr
+		if pt.NewAddr {
+			bindAddr = resumedNewAddr
+		}
+		nx, err := x.ResumeFromAt(p, &st2, bindAddr)
 		if err != nil {
 			o.Stage, o.Detail = stResume, err.Error()
 			o.notePanic("resume", err)
@@ -563,11 +579,25 @@ func runScenario(t *testing.T, p *world.PKI, cf config, pt point, mut *mutation,
 		if held != nil && pt.Infl.early() {
 			deliverHeld()
 		}
+		// In the new-address cases the peer learns the address from the resumed side's records (it may
+		// run a return-routability check first): let the network drain after each transfer, a few
+		// milliseconds of fake time only. Where the peer cannot learn the address at all (no connection
+		// ID on records to the peer, or no return-routability check negotiated) nothing is demanded
+		// of the peer -> resumed direction and it is not attempted.
+		drain := func() {
+			if pt.NewAddr {
+				_ = n.Pump(20*time.Millisecond, nil)
+			}
+		}
 		for round := 1; round <= 2; round++ {
 			ok, d := s.xfer(nx, peer, s.payload("post-x2p"), hz)
 			o.Flows = append(o.Flows, flow{Name: fmt.Sprintf("X>P#%d", round), FromX: true, OK: ok, Detail: d})
-			ok, d = s.xfer(peer, nx, s.payload("post-p2x"), hz)
-			o.Flows = append(o.Flows, flow{Name: fmt.Sprintf("P>X#%d", round), OK: ok, Detail: d})
+			drain()
+			if !pt.NewAddr || o.Migratable {
+				ok, d = s.xfer(peer, nx, s.payload("post-p2x"), hz)
+				o.Flows = append(o.Flows, flow{Name: fmt.Sprintf("P>X#%d", round), OK: ok, Detail: d})
+				drain()
+			}
 			if round == 1 && held != nil && !pt.Infl.early() {
 				deliverHeld()
 			}
